@@ -25,7 +25,7 @@ use rustc_middle::mir::{
 };
 use rustc_middle::mir::PlaceTy;
 use rustc_middle::ty::print::{with_resolve_crate_name, with_no_trimmed_paths, with_no_visible_paths};
-use rustc_middle::ty::{self, Instance, Ty, TyCtxt, TypingEnv};
+use rustc_middle::ty::{self, Instance, Ty, TyCtxt, TypeVisitableExt, TypingEnv};
 use rustc_span::Span;
 use std::fmt::Write as _;
 
@@ -218,9 +218,17 @@ impl<'a, 'tcx> Cx<'a, 'tcx> {
             }
         } else if let ty::Ref(_, inner, _) = ty.kind() {
             if inner.is_str() {
-                if let Const::Val(cv, _) = c.const_ {
-                    if let Some(bytes) = cv.try_get_slice_bytes_for_diagnostics(tcx) {
-                        items.push(("str", esc(&String::from_utf8_lossy(bytes))));
+                let evaluable = match c.const_ {
+                    Const::Ty(_, tc) => !tc.has_non_region_param()
+                        && matches!(tc.kind(), ty::ConstKind::Value(_)),
+                    Const::Unevaluated(..) => false,
+                    Const::Val(..) => true,
+                };
+                if evaluable {
+                    if let Ok(cv) = c.const_.eval(tcx, self.env, c.span) {
+                        if let Some(bytes) = cv.try_get_slice_bytes_for_diagnostics(tcx) {
+                            items.push(("str", esc(&String::from_utf8_lossy(bytes))));
+                        }
                     }
                 }
             }
